@@ -272,7 +272,7 @@ class C16(Check):
         'responsiveness is judged only for Iterator sources (plain iterables are iterated inline by design)',
     ]
     rule = ('cases = sources of length 0-6 (4 %: 31-257 elements with the consumer far behind; 15 %: a second bridge iterated '
-            'to its end inside the first one\'s loop body) (list, range, list iterator, generator, iterator object, async generator, async '
+            'to its end inside the first one\'s loop body or inside the async source itself) (list, range, list iterator, generator, iterator object, async generator, async '
             'iterator object; elements None/falsy/duplicates/fresh objects/exception instances/an object equal to everything), failure at every '
             'position or none (a third of the failures are BaseException but not Exception), producer and '
             'consumer step durations {0, tick/2, 5 ticks}, to_sync_iter with and without an explicit loop, random/pct/stall '
